@@ -175,6 +175,11 @@ def evaluate(ctx, cases):
                     cnt = sum(1 for x in entries if regs[k].match(x))
                     if cnt != 1: bad = ("option %d (%r) has %d entry lines" % (k, c["opts"][k]["name"], cnt)); break
                 if bad is None and len(entries) != len(vis): bad = "%d entry lines for %d visible options" % (len(entries), len(vis))
+                # "… and nothing else": when no description text contains a line break, every other line is empty or the caption line of a group
+                if bad is None and not any(b"\n" in c["opts"][k]["desc"] for k in vis):
+                    caps = set(b"Group%d:" % c["opts"][k]["group"] for k in range(len(c["opts"])) if c["opts"][k]["group"] != 0)
+                    other = [x for x in dl if x and not x.startswith(b"  --") and x not in caps]
+                    if other: bad = "a line that is neither an option entry nor a caption: %r" % other[0][:80]
                 if bad: ctx.fail("C19:description", "the description does not list exactly the visible options once each in the stated shape", to_json(c), {"what": bad, "desc": desc.decode("latin-1")[:600]})
             # (2) defaults
             want = [(k, c["opts"][k]["dflt"]) for k in vis if c["opts"][k]["dflt"] is not None]
